@@ -325,17 +325,21 @@ def rule_literal_terms(ctx: Ctx, rid="C05.LITERAL-VALUES"):
             continue
         ref = PL.ref_module(o.prog)
 
-        def leaves(x, out):
+        def leaves(x, out, path=()):
             if isinstance(x, tuple):
                 if x and x[0] == "weight":
                     return      # a weight's value/type is C03's, not a literal the program can observe
                 if x and x[0] in ("const", "pyconst", "name", "call", "expr"):
-                    out.append(x)
+                    # a literal written inside tuples is part of a tuple value: the enclosing tuple displays (and their
+                    # sizes) belong to what reaches run time
+                    out.append(x + (("in",) + path,) if path else x)
                     return
                 if x and x[0] in ("tuple", "list"):
                     out.append((x[0], len(x[1])))
+                    if x[0] == "tuple":
+                        path = path + (len(x[1]),)
                 for y in x:
-                    leaves(y, out)
+                    leaves(y, out, path)
         g, e = [], []
         leaves(ir["body"], g)
         leaves(ref["body"], e)
